@@ -657,6 +657,14 @@ func (fr *Frame) instr(in ssa.Instruction, st *State, pc Term, b *ssa.BasicBlock
 		fr.goRequires(in, st, pc)
 		vc.warn("%s: go statement: effects of the goroutine are not tracked (heap havoc)", fr.fn.Name())
 		vc.havocAllHeaps(st)
+		// ghosts that the spawned function (or what it calls) assigns with
+		// set clauses may change at any time from here on
+		for _, h := range vc.callEffects(fr, &in.Call).sorted() {
+			if vc.specs.isSetGhostHeap(h) {
+				vc.havocHeap(st, h)
+				vc.warn("%s: go statement starts a function with set clauses for %s: the ghost is havoced (interference is not modelled)", fr.fn.Name(), h)
+			}
+		}
 		fr.havocCaptured(st, pc)
 	case *ssa.Send:
 		fr.send(in, st, pc)
